@@ -61,6 +61,23 @@ def make_doc(g, kind):
         k = [i for i, ln in enumerate(lines) if ln.startswith("~A")][0]
         rows = [" %.2f %.2f %.2f" % (i * 0.5, 10 + i, 20 + i) if i == 0 else " %.2f %.2f-%.2f" % (i * 0.5, 10 + i, 20 + i) for i in range(nr)]
         return {"lines": lines[:k + 1] + rows, "wide": False}
+    if kind == "comma_dlm":
+        doc = docmodel.std_doc(g, ncurves=g.randint(2, 4), nrows=g.randint(2, 4))
+        doc["sections"][0]["items"].append(["DLM", "", "COMMA", "DELIMITING CHARACTER"])
+        doc["sep"] = g.choice([", ", " , ", ","])
+        return {"lines": docmodel.render_doc(doc), "wide": False}
+    if kind == "comma_decimal":
+        nr = g.randint(2, 5)
+
+        def cell(i, j):
+            return ("%.2f" % (i * 0.5 if j == 0 else (i * 10 + j) * 1.25)).replace(".", ",")
+        doc = docmodel.std_doc(g, ncurves=3, nrows=nr, cell=cell)
+        return {"lines": docmodel.render_doc(doc), "wide": False}
+    if kind == "tab_dlm":
+        doc = docmodel.std_doc(g, ncurves=g.randint(2, 4), nrows=g.randint(2, 4))
+        doc["sections"][0]["items"].append(["DLM", "", "TAB", "DELIMITING CHARACTER"])
+        doc["sep"] = "\t"
+        return {"lines": docmodel.render_doc(doc), "wide": False}
     doc = docmodel.std_doc(g, custom=g.choice([0, 0, 1]), wrap=g.random() < 0.15)
     return {"lines": docmodel.render_doc(doc), "wide": False}
 
@@ -91,9 +108,9 @@ def canon_result(las):
 class C10(Prop):
     id = "C10"
     level = "exploration"
-    rule = ("scenario = 3-5 generated documents (non-ASCII header text in the Latin-1 range or BMP/astral, documents lacking "
-            "~V/~W/~C so that defaults stay visible, a date file with a hyphen in every data line, a run-on file, plain "
-            "ones) + 1-3 clients with histories of read (channel x codec x newline x options) / write / LASFile() / "
+    rule = ("scenario = 3-6 generated documents (non-ASCII header text in the Latin-1 range or BMP/astral, documents lacking "
+            "~V/~W/~C so that defaults stay visible, a date file with a hyphen in every data line, a run-on file, DLM COMMA / "
+            "DLM TAB files, a decimal-comma file, plain ones) + 1-3 clients with histories of read (channel x codec x newline x options) / write / LASFile() / "
             "mutation of earlier results (header items of parsed and default sections, in-place array writes, renames, "
             "deletes), interleaved by a seeded op-level schedule or by the line-level baton scheduler (real threads, "
             "pre-empted at lasio source lines).  Non-trivial = a read happened after a mutation/other read and a file "
@@ -110,8 +127,8 @@ class C10(Prop):
 
     def gen(self, st, tier, index):
         g = st.gen
-        kinds = ["nonascii", "nosections", "hyphen", "runon", "plain"]
-        docs = [make_doc(g, k) for k in g.sample(kinds, g.randint(3, 5))]
+        kinds = ["nonascii", "nosections", "hyphen", "runon", "plain", "comma_dlm", "comma_decimal", "tab_dlm"]
+        docs = [make_doc(g, k) for k in g.sample(kinds, g.randint(3, 6))]
         nclients = g.choice([1, 2, 2, 3])
         clients = []
         for c in range(nclients):
